@@ -13,7 +13,8 @@
      alternation; groups ( ) and (?: ); bracket classes with ranges, negation, escapes;
      `^` only as the first token (optionally before/after a leading (?i)), `$` only as the
      last token, and neither combined with a top-level alternation (where they would bind
-     to one branch only); a leading flag group (?i) (?s) (?is) (?si): i = ASCII
+     to one branch only); also `$` immediately before the `)` that closes a depth-1 group
+     ending the pattern, as in `x(?:/|$)` or `(?:.*\.o$)` (see KDollar); a leading flag group (?i) (?s) (?is) (?si): i = ASCII
      case-insensitive, s = `.` also matches U+000A, both for the whole pattern.
    Not modelled: counted repetition {m,n}, other flags, named groups, nested/posix classes,
    class set operations, \b, \p{..}, \x.., Unicode case folding. *)
@@ -185,6 +186,13 @@ Fixpoint go (ci ds : bool) (stk : list frame) (alts sq : list re) (q : bool) (cl
           | KDollar =>
               match rest, stk with
               | [], [] => Some (close alts sq, true, negb (is_nil alts))
+              | [c1], [(alts0, sq0)] =>
+                  (* `$` closing the LAST alternative of a FINAL group of a pattern without
+                     top-level alternation:  P(A1|..|An|B$)  is  P(A1 X|..|An X|B)$  with X = any
+                     string, because "not anchored at the end" means "followed by anything". *)
+                  if (c1 =? 41) && is_nil alts0
+                  then Some (close_seq (close (map (fun a => Seq a (Star AnyNL)) alts) sq :: sq0), true, false)
+                  else None
               | _, _ => None
               end
           | KLit => go ci ds stk alts (lit ci c :: sq) false None rest
@@ -387,6 +395,22 @@ Example ex32 : is_match (s "(?ii)a") (s "a") = None.                          (*
 Proof. vm_compute. reflexivity. Qed.
 Example ex33 : parse_regex (s "^(?is)a.*\+$") =
                Some (mkrx true true (Seq (ChrI 97) (Seq (Star AnyNL) (Seq (ChrI 43) Eps)))).
+Proof. vm_compute. reflexivity. Qed.
+
+(* `$` closing the last alternative of a final group *)
+Example ex34 : is_match (s "^a(?:/|$)") (s "a") = Some true.
+Proof. vm_compute. reflexivity. Qed.
+Example ex35 : is_match (s "^a(?:/|$)") (s "a/b") = Some true.
+Proof. vm_compute. reflexivity. Qed.
+Example ex36 : is_match (s "^a(?:/|$)") (s "ab") = Some false.
+Proof. vm_compute. reflexivity. Qed.
+Example ex37 : is_match (s "^d/(?:.*\.o$)") (s "d/x/a.o") = Some true.
+Proof. vm_compute. reflexivity. Qed.
+Example ex38 : is_match (s "^d/(?:.*\.o$)") (s "d/x/a.ob") = Some false.
+Proof. vm_compute. reflexivity. Qed.
+Example ex39 : is_match (s "a|(b$)") (s "b") = None.                          (* top-level alternation: outside the subset *)
+Proof. vm_compute. reflexivity. Qed.
+Example ex40 : is_match (s "((b$))") (s "b") = None.                          (* depth 2: outside the subset *)
 Proof. vm_compute. reflexivity. Qed.
 
 Print Assumptions rx_re_ok.
